@@ -327,7 +327,7 @@ def r4_sweep(ctx, chk, rule="C01.4"):
         chk.violation(rule, where, "the sweep iterates `%s`, not the search result `%s`" % (show(F.source), dom_param),
                       expected="for s in %s" % dom_param, found=show(F.source), construct="value_iteration_reachability sweep domain")
         return
-    slist = ("attr", ("v", "self"), "state_list")
+    slist = shared.SLIST(ctx)
     state = simp(("idx", slist, ("elem", F.id)))
     new = ("mcall", state, "value_iteration_reach", (slist,), ())
     old = ("attr", state, REACH)
@@ -394,8 +394,9 @@ def r5_flag(ctx, chk, rule="C01.5"):
         if g.qual in (SOLVER_SR, SOLVER_VIR):
             continue
         for n in walk_no_nested_defs(g.node):
-            if (isinstance(n, ast.Attribute) and "prune" in n.attr and n.attr in ("prune_states",)) or \
-                    (isinstance(n, ast.Name) and n.id == "prune_states"):
+            nm = shared.solver_names(ctx)
+            if (isinstance(n, ast.Attribute) and isinstance(n.ctx, ast.Load) and n.attr == nm["flag_field"] and not isinstance(getattr(n, "parent", None), ast.Call)) or \
+                    (isinstance(n, ast.Name) and n.id in (nm["flag_param"], nm["flag_field"]) and isinstance(n.ctx, ast.Load)):
                 chk.violation(rule, g.where(n), "%s reads the pruning flag: reachability depends on it" % g.short,
                               expected="no access to prune_states below solve_reachability", found=norm_stmt(ctx.cfg(g).stmt_of(n)),
                               construct="%s reads prune_states" % g.short)
